@@ -203,10 +203,10 @@ def spaces(tier, seed):
                              bounds={'letters': al, 'routes': 16, 'durations': 2, 'amp_threshes': AMP_THRESHES})]
     if tier != 'quick':
         leaf = [(c, a) for c in ('peak', 'trough') for a in AMP_THRESHES]
-        out.append(ProductSpace('W(4,5)xroutes-full', S.word_dims(S.alphabet(4), 5) + [leaf], evaluate_full,
-                                describe='full product of routes (incl. 0) x durations x thresholds', bounds={'letters': S.alphabet(4)}))
-        al = S.alphabet(6, seed, extra=1)
-        out.append(ProductSpace('W(7,5)xroutes', S.word_dims(al, 5) + [leaf[1:2] + leaf[3:4]], evaluate, bounds={'letters': al}))
+        out.append(ProductSpace('W(3,5)xroutes-full', S.word_dims(S.alphabet(3), 5) + [leaf], evaluate_full,
+                                describe='full product of routes (incl. 0) x durations x thresholds', bounds={'letters': S.alphabet(3)}))
+        al = S.alphabet(5, seed, extra=1)
+        out.append(ProductSpace('W(6,5)xroutes', S.word_dims(al, 5) + [leaf[1:2] + leaf[3:4]], evaluate, bounds={'letters': al}))
         st = [(c, m) for c in ('peak', 'trough') for m in (3, 4, 5, 6)]
         out.append(ProductSpace('W(3,8)-short-tables', S.word_dims(['a', 'b', 'd'], 8) + [st], eval_short_table))
     return out
